@@ -131,12 +131,16 @@ func H_C16_collect() {
 	}
 	st.observers = wrapper.CreateConcurrentSwissMap[uint16, couchbase.Observer](1024)
 	st.offsets = wrapper.CreateConcurrentSwissMap[uint16, *models.Offset](1024)
-	ids := [2]uint16{3, 900}
-	labels := [2]string{"3", "900"}
-	var offs [2]*models.Offset
-	var obs [2]*vObsMetric
-	var high [2]uint64
-	var hasHigh [2]bool
+	n := 2
+	if tierThorough() {
+		n = 3 // three vBuckets: all six visiting orders
+	}
+	ids := []uint16{3, 900, 41}[:n]
+	labels := []string{"3", "900", "41"}[:n]
+	var offs [3]*models.Offset
+	var obs [3]*vObsMetric
+	var high [3]uint64
+	var hasHigh [3]bool
 	for i, vb := range ids {
 		offs[i] = &models.Offset{SnapshotMarker: &models.SnapshotMarker{StartSeqNo: nondetU64("start"), EndSeqNo: nondetU64("end")}, SeqNo: nondetU64("seq")}
 		st.offsets.Store(vb, offs[i])
@@ -166,7 +170,7 @@ func H_C16_collect() {
 		samples = append(samples, (<-ch).(*vSample))
 	}
 	var total float64
-	var lags [2]float64
+	var lags [3]float64
 	for i := range ids {
 		s := vFind(samples, "cbgo_seq_no_current", labels[i])
 		assert(s != nil && s.val == float64(offs[i].SeqNo), "position gauge equals the tracked seqno")
@@ -207,13 +211,23 @@ func H_C16_collect() {
 				assert(s.invalid, "lag is reported invalid when the high seqnos are unknown")
 			}
 		}
-		assert(n == 2, "one invalid lag per vBucket")
+		assert(n == len(ids), "one invalid lag per vBucket")
 	} else {
 		s := vFind(samples, "cbgo_total_lag_current", "")
 		// floating-point addition in either visiting order (the iteration order of the map is unspecified)
 		var zero float64
-		alt := zero + lags[1] + lags[0]
-		assert(s != nil && (s.val == total || s.val == alt), "total lag is the sum of the per-vBucket lags")
+		okSum := false
+		if n == 2 {
+			okSum = s != nil && (s.val == zero+lags[0]+lags[1] || s.val == zero+lags[1]+lags[0])
+		} else {
+			for _, o := range [][3]int{{0, 1, 2}, {0, 2, 1}, {1, 0, 2}, {1, 2, 0}, {2, 0, 1}, {2, 1, 0}} {
+				if s != nil && s.val == zero+lags[o[0]]+lags[o[1]]+lags[o[2]] {
+					okSum = true
+				}
+			}
+		}
+		_ = total
+		assert(okSum, "total lag is the sum of the per-vBucket lags")
 	}
 	s := vFind(samples, "cbgo_active_stream_current", "")
 	assert(s != nil && s.val == float64(st.active), "active-stream gauge")
